@@ -132,3 +132,41 @@ def _dispatch(a):
         mod, fn = extra_fn
         return getattr(importlib.import_module(mod), fn)(job)
     return _work(job)
+
+
+def replay(body):
+    """./check Cnn --replay FILE for the Session-based properties: re-execute the recorded behaviour on real objects of the
+    recorded binding, print the projected state after every call, validate the log with TLC and print the verdict."""
+    case = body.get('case') or {}
+    if 'behaviour' not in case or 'binding' not in case:
+        print(json.dumps(body, indent=1)[:4000])
+        return 0
+    b = B.by_name(case['binding'])
+    variant = dict(kv.split('=', 1) for kv in case.get('variant', '').split(',') if '=' in kv)
+    seedform = variant.pop('seedform', case.get('seedform', 'int'))
+    for k, v in variant.items():
+        if k == 'poison_cycle':
+            v = (0.0, 0.625, float('nan'))
+        setattr(b, k, v)
+    beh = case['behaviour']
+    nobj = max([e.get('o', 0) for e in beh] + [e.get('o2', 0) for e in beh] + [len(e.get('su', [])) for e in beh] + [1])
+    rp = R.Replayer(b, seedform, nobj)
+    try:
+        refs = []
+        if beh and beh[0]['e'] != 'Setup':
+            refs = [[{'e': 'New', 'o': 1, 'c': c, 's': 0}, {'e': 'Fit', 'o': 1, 'd': d}] for c in b.cfgs if c not in b.draw_cfgs for d in b.valid]
+        for i, h in enumerate(refs + [beh]):
+            rp.run_behaviour(i, h)
+        verdict, tr = rp.validate({})
+        print('binding %s, %d reference behaviours, behaviour under replay:' % (b.name, len(refs)))
+        for line, rec in enumerate(rp.log, 1):
+            if rp.where[line - 1][0] != len(refs):
+                continue
+            fails = [c for l, c in verdict if l == line]
+            print('  %-34s life=%s g=%s rng=%s par=%s out=%s err=%r %s' % (rp.where[line - 1][2], rec['life'], rec['g'], rec['rng'], rec['par'],
+                                                                     rec['out'], rec['err'], ('<-- ' + ', '.join(fails)) if fails else ''))
+        bad = [c for l, c in verdict if rp.where[l - 1][0] == len(refs)]
+        print('verdict: %s' % (bad or 'accepted'))
+        return 1 if bad else 0
+    finally:
+        rp.close()
